@@ -11,7 +11,10 @@ attribute codec; decode(to_raw(v)) = v per attribute type: to_raw and the type's
 in-limit value in content-tracking mode, every accepting return must hand back each field as the original field (numbers
 entailed equal - a known but unequal function of the original is a violation -, text / byte fields the same identified
 bytes).  Decided today for 14 of the 19 types; the two address attributes (std::net values are opaque), the two element-wise
-lists and the xor-ed FINGERPRINT are listed in the evidence as not decided.  NOT decided: that decode(to_raw(v)) is
+lists and the xor-ed FINGERPRINT are listed in the evidence as not decided.  UNKNOWN-ATTRIBUTES::has_attribute is the
+membership of the decoded list (short symbolic lists in any order; an answer resting on an order of the list is accepted only
+if every writer of the list establishes it); the in-place encoding path is covered through the C12 writer instances,
+evaluated as a premise.  NOT decided: that decode(to_raw(v)) is
 *accepted* for every in-limit v beyond the limit tables above (UTF-8 acceptance is delegated to from_utf8), re-encoding
 stability of decoded values, the undecided types."""
 import re
